@@ -5,6 +5,7 @@ real load() of the written package. Output side B: vlib.iolab.decode - an indepe
 only by the written descriptor. Both must give back the typed values that entered the dumper.
 """
 import copy
+import decimal
 import os
 
 from vlib import boot, gen, iolab, lab
@@ -120,6 +121,26 @@ def run_case(case):
                     if isinstance(v_, str) and v_ in missing and v_ != '':
                         row[k_] = 'x' + v_
             cov['config']['schema_missingValues/%s' % ('with_empty' if '' in missing else 'without_empty')] = 1
+        if rng_x.random() < 0.12:
+            # constraints whose values are written in the serialisation the resource ARRIVES with (lexical values, as in
+            # any descriptor read from JSON); every generated value satisfies them
+            for fd in fields:
+                vals = [row[fd['name']] for row in rows if row[fd['name']] is not None]
+                if fd['type'] == 'date':
+                    fd['format'] = '%d/%m/%Y'
+                    fd['constraints'] = {'minimum': '01/01/0001', 'maximum': '31/12/9999'}
+                elif fd['type'] == 'datetime':
+                    fd['constraints'] = {'maximum': '9999-12-31T23:59:59Z'}
+                elif fd['type'] == 'number' and all(v == v and abs(v) != decimal.Decimal('Infinity') for v in vals):
+                    fd['decimalChar'] = ','
+                    fd['constraints'] = {'minimum': '-100000000000000000000,5'}
+                elif fd['type'] == 'boolean':
+                    fd['trueValues'], fd['falseValues'] = ['yes'], ['no']
+                    fd['constraints'] = {'enum': ['yes', 'no']}
+                elif fd['type'] == 'integer' and fd['name'] != 'rowid':
+                    fd['constraints'] = {'minimum': str(-2 ** 80)}
+            if any('constraints' in fd for fd in fields):
+                cov['config']['lexical_constraint_values'] = 1
         res.append({'name': 'res%d' % r, 'fields': fields, 'rows': rows, 'pk': pk, 'missing': missing})
     out = 'out_pkg' if kind == 'path' else 'out.zip'
     opts = {'format': fmt}
